@@ -294,7 +294,24 @@ pub fn run(ctx: &mut Ctx) -> (&'static str, String, bool) {
             let mut r = base_rng.fork(100 + i + 7919 * shard);
             let compressed = i % 2 == 0;
             let target = if miri { 6120 + 1200 } else { 6120 * (3 + r.usize_below(if thorough { 8 } else { 3 })) };
-            let stream = make_stream(c, &mut r, compressed, target, false);
+            let stream = if miri {
+                // hand-built frames: cheap to produce and to decode under the interpreter, still > 6120 bytes
+                let mut s = vec![];
+                let mut k = 0u32;
+                while s.len() < target {
+                    k += 1;
+                    let n = 8 + 4 * (10 + (k as usize * 7) % 40); // MAL with 10..49 mods
+                    let mut f = vec![if compressed { (n / 4) as u8 } else { n as u8 }, 65, k as u8, ((n - 8) / 4) as u8, 0, 0, 0, 0];
+                    for i in 0..(n - 8) / 4 {
+                        f.extend_from_slice(&(0x0100_0000u32 + k * 256 + i as u32).to_le_bytes());
+                    }
+                    s.extend(f);
+                    s.extend_from_slice(&[if compressed { 1 } else { 4 }, 3, (k % 200) as u8, if k % 9 == 0 { 0 } else { 3 }]);
+                }
+                s
+            } else {
+                make_stream(c, &mut r, compressed, target, false)
+            };
             let (mut plan, default_read) = random_plan(&mut r, &stream, compressed);
             // random transient faults
             if i % 3 == 0 && !plan.is_empty() {
